@@ -303,5 +303,74 @@ class _SubReport:
         pass
 
 
+
+
+# ---------------------------------------------------------------------------------------------
+# R2 schema lanes
+# ---------------------------------------------------------------------------------------------
+S_METHODS = ("stat_names", "stat_types", "stat_dims_all", "stat_dims", "stat_event_dims", "stat_dim_sizes", "stat_coords")
+D_METHODS = ("data_names", "data_types", "data_dims_all", "data_dims")
+
+
+def lane_labels(calls):
+    labs = set()
+    for c in calls:
+        p = strip_generics(c)
+        last = p.split("::")[-1]
+        if "Settings" in p and last in S_METHODS:
+            labs.add("S")
+        if "Settings" in p and last in D_METHODS:
+            labs.add("D")
+    return labs
+
+
+def r2(F, R):
+    R.rule("C14-R2", "in every StorageConfig::new_trace (and the constructors it calls): sibling fields of identical type inside one storage "
+                     "struct are not all built from the same schema lane (S = Settings::stat_*, D = Settings::data_*)")
+    impls = F.trait_method_impls("StorageConfig", "new_trace")
+    if not impls:
+        R.missing("C14-R2", "impl StorageConfig::new_trace")
+    for b in impls:
+        bodies = [b] + F.closures_of(b.path)
+        any_labelled = False
+        for bx in bodies:
+            for bi, blk in enumerate(bx.blocks):
+                if blk["cleanup"]:
+                    continue
+                for st in blk["stmts"]:
+                    if st["k"] != "assign" or st["rv"]["k"] != "agg" or st["rv"]["ak"] != "adt":
+                        continue
+                    adt = st["rv"]["adt"]
+                    if adt not in F.adts:
+                        continue
+                    fields = st["rv"]["fields"]
+                    ftypes = {f["name"]: f["ty"] for v in F.adts[adt]["variants"] for f in v["fields"]}
+                    labs = {}
+                    for fn, op in zip(fields, st["rv"]["ops"]):
+                        sl = bx.slice([op], control=False, mut_flows=True)
+                        l = lane_labels(sl["calls"])
+                        if l:
+                            labs[fn] = l
+                    if not labs:
+                        continue
+                    any_labelled = True
+                    site = "%s @%s" % (bx.path, loc(st["span"]))
+                    by_type = defaultdict(list)
+                    for fn in labs:
+                        by_type[ftypes.get(fn)].append(fn)
+                    for ty, fns in sorted(by_type.items(), key=lambda x: str(x[0])):
+                        key = "%s:%s{%s}" % (b.path, strip_generics(adt).split("::")[-1], ",".join(sorted(fns)))
+                        single = [labs[f] for f in fns if len(labs[f]) == 1]
+                        if len(fns) >= 2 and len(single) == len(fns) and len({tuple(x) for x in single}) == 1:
+                            R.bad("C14-R2", key, site, "sibling fields %s (type %s) are all built from the %s schema lane: the draw containers and the statistics containers must come from different schemas" % (
+                                sorted(fns), ty, "statistics" if "S" in single[0] else "draw"))
+                        else:
+                            R.ok("C14-R2", key, site, "lanes %s" % {f: sorted(labs[f]) for f in fns})
+        if not any_labelled:
+            R.info("C14-R2", "%s: no schema-labelled struct construction (backend keys its columns differently)" % b.path)
+    R.floor("C14-R2", 4)
+
+
 def run(F, R, config="all"):
     r1(F, R)
+    r2(F, R)
